@@ -92,15 +92,20 @@ def judge(spec, obs):
                 return f"client {cid}, call #{k} {call['method']}: returned after {r[-1]} s, before its operation completed ({call['args'][1]} s)"
         if spec.get("kind") == "realops":
             import clientops
-            sp = clientops.Spec(8, 8, False, False)
+            # what each call stands for is not this property's business (C04, C05): the reference is the same tree's
+            # own client driven directly, one call after the other, on an in-memory transport
+            ops = [(call["method"], *call["args"]) for call in c["calls"] if call["method"] != "pause"]
+            direct, _final = clientops.run_real(8, 8, False, False, ops)
+            per_op = iter([[m for m in (clientops.parse_c2s(b) or []) if m[0] in ("KeyEvent", "PointerEvent")] if b is not None else []
+                           for b in direct])
             want, durations = [], []
             for call in c["calls"]:
                 if call["method"] == "pause":
                     durations.append(call["args"][0])
                     continue
-                before = len(want)
-                want += sp.expected((call["method"], *call["args"])) or []
-                durations.append(0.2 * (len(want) - before - 1) if call["method"] == "mouseDrag" else 0)
+                mine = next(per_op)
+                want += mine
+                durations.append(0.2 * (len(mine) - 1) if call["method"] == "mouseDrag" and mine else 0)
             wire = bytes.fromhex(obs["received"].get(cid, ""))[14:]
             msgs = clientops.parse_c2s(wire)
             got = None if msgs is None else [m for m in msgs if m[0] in ("KeyEvent", "PointerEvent")]
